@@ -275,6 +275,16 @@ static void scan_dir(const char *dir, const char *suffix, const char ***v, unsig
   }
   closedir(d);
 }
+/* hand-written regression witnesses of /verif/corpus/<sub> (sorted); they are run unmutated at the first case indexes of a check */
+unsigned tl_witness(const char *sub, const char *suffix, const char ***pathsp)
+{
+  const char **v = NULL; unsigned n = 0, cap = 0; char p[4096];
+  const char *vr = getenv("VERIF_ROOT");
+  snprintf(p, sizeof p, "%s/corpus/%s", vr ? vr : "/verif", sub); scan_dir(p, suffix, &v, &n, &cap);
+  if (n) qsort(v, n, sizeof *v, cmp_str);
+  *pathsp = v;
+  return n;
+}
 unsigned tl_corpus(const char ***pathsp)
 {
   static const char **v; static unsigned n, cap;
